@@ -227,6 +227,9 @@ class C16(core.Check):
                 src = 'Text \\textbf{bold} $x$ w1z.\n' + src.replace('\\', '/').replace('%', 'c').replace('$', 'S') \
                     .replace('{', '(').replace('}', ')').replace('#', 'n').replace('&', 'u').replace('~', '-') \
                     .replace('^', 'v').replace('_', '-')
+            if rnd.random() < .3 and src.rstrip('\n'):
+                src = src.rstrip('\n')           # last line without line end
+                cnt['shell_files_without_final_newline'] = 1
             files[name] = src
         # one plan for all calls: offsets relative to each submitted text (clamped by the fake proofreader)
         if case['latex']:
